@@ -98,6 +98,17 @@ def TUPLE(*items):
     return Ty("tuple", None, tuple(items))
 
 
+def EXT(cls):
+    """a reference to an object of an EXTERNAL library class (matplotlib Axes, networkx DiGraph, CP-SAT model ...):
+    only known through the [TRUSTED] method contracts registered for that class (pyvc.library.EXT_MODELS)"""
+    return Ty("ext", cls)
+
+
+def DICT(key, val):
+    """a dict used as a LOCAL value (like sets): (has: Int -> Bool, value: Int -> Int)"""
+    return Ty("dict", val, (key,))
+
+
 def UNION(a, b):
     """`a | b` of two different concrete kinds (int | list[int], int | tuple[int, int]): the value is
     (is_first, value as a, value as b); isinstance() narrows it"""
@@ -148,7 +159,7 @@ def vxint(t, isinf):
 def to_int(v: Val):
     """Encoding of a value as a single SMT Int for storage in the heap."""
     k = v.ty.kind
-    if k in ("int", "ref", "list", "any", "deque", "callref", "emptydict"):
+    if k in ("int", "ref", "list", "any", "deque", "callref", "emptydict", "ext", "enum"):
         return v.t
     if k == "set":
         raise TypeError("a set value cannot be stored in the heap (sets are local values)")
